@@ -17,9 +17,13 @@ instance is split into the pieces between which another process can act:
 * `select i`            `get_delayed_calls_to_start(now + 1s, batch_size)` inside the
                         `_capture_calls` transaction: `execution_time < now+1`, `processing = False`,
                         ORDER BY execution_time, LIMIT batch_size.
+* `scheduleBad ra key tx`  the same for a call whose target (or serializer) cannot be imported.
 * `capture i`           the loop of `update_delayed_call(id, {processing: True},
                         query_filter={processing: False})` CASes of that transaction (+ commit);
                         only rows whose CAS matched are kept; nothing captured → iteration over.
+                        `_prepare_calls` follows without DB access: if a captured call cannot be
+                        prepared it raises out of `_process_delayed_calls` — the iteration is over,
+                        the whole batch keeps `processing = True` (instance alive).
                         (Under READ COMMITTED two instances can both have selected a row before
                         either CAS runs: that is why select and capture are separate steps.)
 * `invoke i`            the next call of the `_invoke_calls` loop (exceptions of the target are
@@ -39,6 +43,7 @@ structure LRow where
   processing : Bool
   key : Nat
   vis : Vis
+  bad : Bool := false      -- the call's target / serializer cannot be imported: `_prepare_calls` raises
 deriving DecidableEq, Repr
 
 inductive LPhase where
@@ -57,6 +62,7 @@ deriving DecidableEq, Repr
 
 inductive LStep where
   | schedule (runAfter key tx : Nat)
+  | scheduleBad (runAfter key tx : Nat)
   | commit (tx : Nat)
   | rollback (tx : Nat)
   | tick (n : Nat)
@@ -78,7 +84,9 @@ def lEligible (clock : Nat) (r : LRow) : Bool :=
 def lEligibleRows (clock : Nat) (rows : List LRow) : List (Nat × Nat × Option Nat) :=
   rows.zipIdx.filterMap fun (r, j) => if lEligible clock r then some (r.executeAt, j, none) else none
 
-/-- ORDER BY execution_time (ties in row order) LIMIT batch_size -/
+/-- ORDER BY execution_time LIMIT batch_size.  Ties are left unspecified by the database; the model
+    resolves them as `sortCands` does (the correspondence harness continues with the model's order
+    when the real answer differs only among equal execution_time). -/
 def lSelect (batch : Option Nat) (clock : Nat) (rows : List LRow) : List Nat :=
   let sorted := sortCands (lEligibleRows clock rows)
   let lim := match batch with
@@ -112,9 +120,19 @@ def lDelete (ids : List Nat) (rows : List LRow) : List LRow :=
 def lEndTx (tx : Nat) (outcome : Vis) (rows : List LRow) : List LRow :=
   rows.map fun r => if r.vis = .uncommitted tx then { r with vis := outcome } else r
 
+/-- some captured call cannot be prepared: `_prepare_calls` raises out of `_process_delayed_calls`
+    (after `_capture_calls` has committed the flags) and the iteration is over -/
+def lAnyBad (rows : List LRow) (ids : List Nat) : Bool :=
+  ids.any fun j => match rows[j]? with
+    | some r => r.bad
+    | none => false
+
 def lStep (batch : Option Nat) (s : LState) : LStep → LState
   | .schedule ra key tx =>
     { s with rows := s.rows ++ [{ executeAt := s.clock + ra, processing := false, key := key, vis := .uncommitted tx }] }
+  | .scheduleBad ra key tx =>
+    { s with rows := s.rows ++ [{ executeAt := s.clock + ra, processing := false, key := key, vis := .uncommitted tx,
+                                  bad := true }] }
   | .commit tx => { s with rows := lEndTx tx .committed s.rows }
   | .rollback tx => { s with rows := lEndTx tx .rolledBack s.rows }
   | .tick n => { s with clock := s.clock + n }
@@ -129,7 +147,7 @@ def lStep (batch : Option Nat) (s : LState) : LStep → LState
         rows := (lCaptureAll cands s.rows).1
         caps := ((lCaptureAll cands s.rows).2.map fun j => (j, s.clock, i)).reverse ++ s.caps
         insts := s.insts.set i (true,
-          if (lCaptureAll cands s.rows).2 = [] then .idle
+          if (lCaptureAll cands s.rows).2 = [] || lAnyBad s.rows (lCaptureAll cands s.rows).2 then .idle
           else .busy (lCaptureAll cands s.rows).2 (lCaptureAll cands s.rows).2) }
     | _ => s
   | .invoke i =>
